@@ -281,12 +281,15 @@ class graph(Graph):
             return self.add_vertex(v, support=overlay)
         else:
             oldnode.misc["cut"] = cutdone
+            # the successors of the block that is cut become those of its second part
+            # (taken before the fall-through link is added, or that link would be moved too):
+            succ = list(oldnode.N(+1))
             v = super(graph, self).add_vertex(v)  # ! avoid recursion for add_edge
             mz.write(vaddr, v)
-            self.add_edge(link(oldnode, v))
-            for n in oldnode.N(+1):
+            for n in succ:
                 self.add_edge(link(v, n))
                 self.remove_edge(oldnode.e_to(n))
+            self.add_edge(link(oldnode, v))
             return v
 
     def add_vertex(self, v, support=None):
@@ -300,6 +303,7 @@ class graph(Graph):
             logger.verbose("add overlay block at %s" % vaddr)
             self.overlay = support
         i = support.locate(vaddr)
+        fallthrough = None
         # check if block intersects others:
         if i is not None:
             mo = support._map[i]
@@ -317,6 +321,9 @@ class graph(Graph):
                         # nextnode is inside v...
                         # try to cut v at nextnode bound:
                         cutdone = v.cut(nextnode.data.address)
+                        if cutdone:
+                            # v now falls through to nextnode:
+                            fallthrough = nextnode
                         if not cutdone:
                             # nextnode address does not match an instruction in v...
                             # thats an overlay:
@@ -329,6 +336,8 @@ class graph(Graph):
                             support = self.overlay or MemoryZone()
         v = super(graph, self).add_vertex(v)  # before support write !!
         support.write(vaddr, v)
+        if fallthrough is not None:
+            self.add_edge(link(v, fallthrough))
         return v
 
     def get_by_name(self, name):
